@@ -56,6 +56,8 @@ C12_W64 = {0, 1, 8, 24, 28, 29, 32, 33, 56, 57, 63, 64}
 def keep_c12(c, quick):
     """C12 thins the lattice to the boundary points (sanitised runs are several times slower)"""
     m = c.get("meta", {})
+    if c["fn"] in ("page_v1_dict", "make_definitions"):
+        return False
     if m.get("pattern") in ("zeros", "alternating") and c["fn"] != "read_bitpacked1":
         return False
     if c["fn"] == "delta_unpack":
@@ -209,6 +211,8 @@ def generate(rng, quick, c12=False):
         del c["enc"]
         if c["fn"] == "read_hybrid":
             c["length"] = 0 if c["prefixed"] else len(o)
+        if c["fn"] == "page_v1_dict":
+            _pg_finish(c)
         if c["fn"] == "delta_unpack":
             # classify by the widths the spec encoder really chose (wrapping deltas can need more bits than intended)
             mw = _delta_max_width(bytes(o))
@@ -458,6 +462,8 @@ FNS = {
 
 def worker_case(c):
     d = {k: v for k, v in c.items() if k not in ("meta", "stream", "enc_len", "trail", "cut")}
+    if c["fn"] == "page_v1_dict":
+        d.pop("inp", None)
     if c.get("cut"):
         d["inp"] = c["inp"][:len(c["inp"]) - 2 * c["cut"]]
     return d
@@ -480,21 +486,43 @@ def check_cases(ctx, pid, cases, workdir, sanitize, memory_only=False):
             return FNS[c["fn"]].get("tagged", True) and L.tag(mo) not in ("ok", None)
         ia = [i for i, (c, mo) in enumerate(zip(cases, mouts)) if not unsafe(c, mo)]
         ib = [i for i, (c, mo) in enumerate(zip(cases, mouts)) if unsafe(c, mo)]
-        # an ASan report is fatal (one worker restart each): of the cases whose model verdict is OOB only a fixed-size,
-        # evenly spread subset is executed; UB verdicts (UBSan does not halt) all run
-        oob = [i for i in ib if L.tag(mouts[i]) == "oob"]
-        keep = 120 if ctx.quick() else 300
-        if len(oob) > keep:
-            step = len(oob) / float(keep)
-            chosen = {oob[int(k * step)] for k in range(keep)}
-            ib = [i for i in ib if L.tag(mouts[i]) != "oob" or i in chosen]
-            ctx.count("model verdict OOB, not executed under ASan (budget)", len(oob) - len(chosen))
+        # an ASan report is fatal and a restart of the sanitised interpreter costs ~3 s: the cases expected to die
+        # (model verdict OOB, delta widths >= 57) run in a batch of their own, of which only a fixed-size, evenly
+        # spread subset is executed; UB verdicts (UBSan does not halt) all run
+        def fatal(i):
+            return L.tag(mouts[i]) == "oob" or (cases[i]["fn"] == "delta_unpack" and cases[i]["meta"]["max_width"] >= 57)
+        ic = [i for i in ib if fatal(i)]
+        ib = [i for i in ib if not fatal(i)]
+        keep = 24 if ctx.quick() else 240
+        if len(ic) > keep:
+            # stratified: every (function, verdict, capacity class / width class) group keeps its share
+            groups = {}
+            for i in ic:
+                m = cases[i].get("meta", {})
+                key = (cases[i]["fn"], L.tag(mouts[i]), m.get("cap_class"), m.get("max_width", 0) >= 57, m.get("count", 1) == 0,
+                       bool(m.get("truncated_run")), bool(m.get("empty_run")))
+                groups.setdefault(key, []).append(i)
+            per = max(1, keep // len(groups))
+            chosen = set()
+            for key in sorted(groups, key=str):
+                g = groups[key]
+                step = len(g) / float(min(per, len(g)))
+                chosen |= {g[int(k * step)] for k in range(min(per, len(g)))}
+            chosen = sorted(chosen)
+            ctx.count("expected-fatal cases not executed under ASan (budget)", len(ic) - len(chosen))
+            ic = chosen
         real = [["skipped"]] * len(cases)
-        for part, tagname in ((ia, "safe"), (ib, "unsafe")):
-            rs = L.run_real([worker_case(cases[i]) for i in part], os.path.join(workdir, tagname), sanitize=True, nproc=nproc,
-                            max_crashes=15 if tagname == "safe" else 400)
-            for i, r in zip(part, rs):
-                real[i] = r
+        from concurrent.futures import ThreadPoolExecutor
+
+        def part_job(arg):
+            part, tagname = arg
+            return part, L.run_real([worker_case(cases[i]) for i in part], os.path.join(workdir, tagname), sanitize=True,
+                                    nproc=nproc, max_crashes=15 if tagname == "safe" else 400,
+                                    chunk=200 if tagname != "fatal" else 6)
+        with ThreadPoolExecutor(3) as ex:
+            for part, rs in ex.map(part_job, ((ia, "safe"), (ib, "unsafe"), (ic, "fatal"))):
+                for i, r in zip(part, rs):
+                    real[i] = r
     else:
         real = L.run_real([worker_case(c) for c in cases], workdir, sanitize=False, nproc=nproc, max_crashes=150)
     souts = L.pq_batch([FNS[c["fn"]]["spec"](c) for c in cases], nproc=4)
@@ -1123,3 +1151,85 @@ def extraction_agreement(ctx, cases, workdir, n=24):
         t = L.tag(mo)
         ev = [0, list(mo[1]), mo[2], mo[3]] if t == "ok" else [codes.get(t, 9), [], 0, 0]
         ctx.correspondence("extracted impl model (pqref) = kernel evaluation of the same Coq term (vm_compute)", short(cases[i]), kv, ev)
+
+
+# =============================================================================================
+# the Python callers of the native decoders (core.read_data_page on foreign v1 dictionary pages)
+# =============================================================================================
+
+def gen_callers(rng, quick):
+    cases = []
+    for w in range(1, 33):
+        for shape in (("rle",), ("bp",), ("rle", "bp", "rle")):
+            if w > 24 and "bp" in shape:
+                continue                  # bit-packed runs of width >= 25: the known native defect, confirmed elsewhere
+            for optional in (False, True):
+                for n in ((9, 40) if quick else (1, 8, 9, 17, 40, 200)):
+                    m = min((1 << w) - 1, (1 << 31) - 1)       # a dictionary has at most 2^31 - 1 entries (i32 num_values)
+                    levels = [1] * n if not optional else [0 if (i % 4 == 1) else 1 for i in range(n)]
+                    nval = sum(levels)
+                    # indices: the extremes of the width first (0, 2^w - 1, 2^(w-1)), then random
+                    ext = [m, 0, 1 << min(w - 1, 30)]
+                    rnd = lambda k: [rng.randrange(m + 1) for _ in range(k)]
+                    if shape == ("rle",):
+                        runs = [["rle", 1, ext[0]], ["rle", 1, ext[1]], ["rle", max(nval - 2, 0), ext[2]]]
+                    elif shape == ("bp",):
+                        runs = [["bp", (ext + rnd(nval))[:nval]]]
+                    else:
+                        runs = [["rle", 2, ext[0]], ["bp", (ext[1:] + rnd(8))[:8]], ["rle", 1, ext[2]], ["bp", rnd(max(nval - 11, 0))]]
+                    want, left = [], nval
+                    kept = []
+                    for rr in runs:
+                        vals = [rr[2]] * rr[1] if rr[0] == "rle" else list(rr[1])
+                        vals = vals[:left]
+                        if not vals:
+                            continue
+                        kept.append(["rle", len(vals), rr[2]] if rr[0] == "rle" else ["bp", vals])
+                        want += vals
+                        left -= len(vals)
+                    runs = kept
+                    if len(want) != nval or any(r_[0] == "bp" and len(r_[1]) % 8 for r_ in runs[:-1]):
+                        continue
+                    cases.append({"fn": "page_v1_dict", "w": w, "n": n, "optional": optional, "stream": "main",
+                                  "enc": ["hyb_enc", w, runs], "trail": False,
+                                  "meta": {"want": want, "levels": levels, "shape": "+".join(shape)}})
+    return cases
+
+
+def _pg_finish(c):
+    """phase 2 hook: assemble the page = [definition levels] + width byte + index runs"""
+    body = bytes.fromhex(c["inp"])
+    head = b""
+    if c["optional"]:
+        lv = c["meta"]["levels"]
+        bits = bytearray((len(lv) + 7) // 8)
+        for i, b in enumerate(lv):
+            bits[i // 8] |= b << (i % 8)
+        blk = _uleb_py(((len(lv) + 7) // 8) << 1 | 1) + bytes(bits)
+        head = len(blk).to_bytes(4, "little") + blk
+    c["page"] = (head + bytes([c["w"]]) + body).hex()
+
+
+def _pg_oracle(c, r, so, guard):
+    if r[0] != "ok":
+        return [(r[0], "core.read_data_page: %r" % (r[:3],))]
+    want = c["meta"]["want"]
+    probs = []
+    dec = so
+    if not dec or list(dec[0][0]) != want:
+        return [("spec", "harness: the page's index runs do not spec-decode to the intended indices")]
+    if r[1] != want:
+        bad = [(i, a, b) for i, (a, b) in enumerate(zip(r[1], want)) if a != b][:4]
+        probs.append(("values", "core.read_data_page returned indices (dtype %s) that differ from the spec decoding of the page at %r "
+                      "(position, got, want)%s" % (r[3], bad, "" if len(r[1]) == len(want) else "; %d values for %d" % (len(r[1]), len(want)))))
+    lv = c["meta"]["levels"]
+    if c["optional"] and 0 in lv and r[2] != lv:
+        probs.append(("values", "definition levels %r..., the page holds %r..." % ((r[2] or [])[:12], lv[:12])))
+    return probs
+
+
+FNS["page_v1_dict"] = dict(model=lambda c: ("uleb_enc", 0), tagged=False, views=_info_views("none"),
+                           spec=lambda c: ("hyb_dec", 0, c["w"], len(c["meta"]["want"]), _inp(c)),
+                           oracle=_pg_oracle, safe=lambda c: True,
+                           cls=lambda c: {"width": c["w"], "optional": c["optional"]}, trivial=lambda c: False)
+EXTRA_GENERATORS.append(gen_callers)
